@@ -307,7 +307,8 @@ Proof.
       rewrite (Z.max_l _ 1) in TW by lia. fold W.
       destruct (Z.ltb_spec (Z.min (cw (o_oshape o) * o_sx o + (needed_total_padding W (o_sx o) (o_dx o * (o_kw o - 1) + 1) - p_left (o_pad o))) W) W) as [Hlt|Hge].
       * (* the box stops short of the IFM width: no right padding is needed, and the original one is 0 *)
-        assert (p_right (o_pad o) = 0) by (rewrite Wbot; nia).
+        assert (ME : (cw (o_oshape o) - 1) * o_sx o = cw (o_oshape o) * o_sx o - o_sx o) by ring.
+        assert (p_right (o_pad o) = 0) by (rewrite Wbot; clear TW TH; lia).
         replace (p_right (o_pad o)) with 0 in TW by lia. exact TW.
       * exact TW.
   - assert (C4 : (cc (fst b) - cc (o_woff o) <=? Z.min (cc (snd b) - cc (o_woff o)) (cc (o_ifm o))) = true) by (apply Z.leb_le; lia).
@@ -326,7 +327,8 @@ Proof.
       replace (cw (o_woff o) + cw (o_oshape o) - cw (o_woff o)) with (cw (o_oshape o)) by lia.
       rewrite (Z.max_l _ 1) in TW by lia. fold W.
       destruct (Z.ltb_spec (Z.min (cw (o_oshape o) * o_sx o + (needed_total_padding W (o_sx o) (o_dx o * (o_kw o - 1) + 1) - p_left (o_pad o))) W) W) as [Hlt|Hge].
-      * assert (p_right (o_pad o) = 0) by (rewrite Wbot; nia).
+      * assert (ME : (cw (o_oshape o) - 1) * o_sx o = cw (o_oshape o) * o_sx o - o_sx o) by ring.
+        assert (p_right (o_pad o) = 0) by (rewrite Wbot; clear TW TH; lia).
         replace (p_right (o_pad o)) with 0 in TW by lia. exact TW.
       * exact TW.
 Qed.
